@@ -17,7 +17,7 @@ import (
 	"golang.org/x/tools/go/ssa"
 
 	"gosym/smt"
-	)
+)
 
 // If the target program panics, the interpreter panics with this type.
 type targetPanic struct {
